@@ -106,7 +106,9 @@ def shifts_and_products(F, S):
         fn = F.fn(MH + "::" + nm, nparams=0)
         callers = sorted(cm.get(fn.key, set()))
         inst = "%s::%s#callers" % (MH, nm)
-        if all(c in guarded_code for c in callers):
+        # (the shift helpers may use one another: TileCount() written as heightInTiles * WidthInTiles())
+        shift_helpers = {F.fn(MH + "::" + x, nparams=0).key for x in ("WidthInTiles", "TileCount")}
+        if all(c in guarded_code or c in shift_helpers for c in callers):
             out.append(ok("R-WHOCALLS", inst, fn.loc(fn.body), fn.qn, "the unguarded shift helper is called only from the guarded reader",
                           "callers: ReadMapBeginning" if callers else "no callers in the library", nontrivial=bool(callers)))
         else:
